@@ -55,13 +55,16 @@ KeyTypeL == {"es19", "es18", "ed25", "unknown", "empty"}
 KeyTypeCls(l) == IF l = "empty" THEN "bad" ELSE "ok"
 PubKeyL  == {"b58", "nonb58", "empty", "b58short"}
 PubKeyCls(l)  == IF l \in {"b58", "b58short"} THEN "ok" ELSE "bad"
-RelL     == {"ref", "dangling", "ded", "dedbadid", "dedbadkey", "nilcontent", "refforeign"}
-RelCls(l)     == IF l \in {"ref", "ded"} THEN "ok" ELSE "bad"
+\* relationship lists of one entry, and of two entries with the malformed one in either position and after either kind of well-formed entry
+\* (every entry of a list is validated, wherever it stands)
+RelL     == {"ref", "dangling", "ded", "dedbadid", "dedbadkey", "nilcontent", "refforeign",
+             "ref_ded", "ded_ref", "ref_dangling", "dangling_ref", "ded_dangling", "dangling_ded", "ded_dedbadkey", "dedbadkey_ded", "ded_refforeign", "ded_nilcontent"}
+RelCls(l)     == IF l \in {"ref", "ded", "ref_ded", "ded_ref"} THEN "ok" ELSE "bad"
 CtxL     == {"w3c", "absent", "other", "w3c_w3c", "w3c_empty", "w3c_x", "emptylist"}
 CtxCls(l)     == IF l \in {"w3c", "absent", "w3c_x"} THEN "ok" ELSE IF l \in {"w3c_empty", "emptylist"} THEN "any" ELSE "bad"
 CtlL     == {"absent", "emptylist", "emptystr", "did", "bad", "did_bad"}
 CtlCls(l)     == IF l \in {"bad", "did_bad"} THEN "bad" ELSE "ok"
-SvcL     == {"none", "complete", "noid", "notype", "noendpoint", "two"}
+SvcL     == {"none", "complete", "noid", "notype", "noendpoint", "two", "two_secondnoid", "two_secondnotype", "two_firstnoendpoint"}
 SvcCls(l)     == IF l \in {"none", "complete", "two"} THEN "ok" ELSE "bad"
 SigL     == {"present", "empty", "one"}
 SigCls(l)     == IF l = "empty" THEN "bad" ELSE "ok"
